@@ -25,6 +25,11 @@ this prelude, on every run. What is *assumed* about Go here (the translator's se
 * an iterator `func(yield func(A, B) bool)` that is applied to a function literal on the spot (`q.each(i)(func…)`) is a
   function of what the literal does with its state — the variables it assigns outside itself — and that state;
 * an interface value whose methods are called (`MessageWriter`) is a state and its methods' answers (`MsgWriter`);
+* a local function literal bound to a variable (`doYield := func(data string) bool { … }`) is a Lean function of its
+  parameters, of the outer variables it reads (passed at every call, as they are then) and of the tuple of outer
+  variables it assigns; a function-typed parameter without results (`onRetry func(int64)`) is an effect on the
+  consumer's state, threaded like `yield`, `nil` being `none`; a `strings.Builder` is the bytes written so far; the
+  `*parser.Parser` event.go reads from is a `ParserI` (a state and the answers of `Next` / `Err`);
 * `int64` / `time.Duration` multiplication wraps (`wrapInt64`); `strconv.ParseInt(s, 10, 64)`, the one use of
   `strings.IndexFunc` (first rune outside an ASCII range) and `utf8.DecodeRuneInString` (approximate: only error texts
   depend on it) are re-modelled below; an error value built from a struct (`&UnmarshalError{…}`) is its type name and
@@ -119,6 +124,14 @@ structure MsgWriter (μ σ : Type) where
   st : σ
   send : σ → Option μ → Option String × σ
   flush : σ → Option String × σ
+
+/-- The field source of event.go (`*parser.Parser`, which is not translated: the split wrapper `parser.New` installs
+writes to the parser from inside `bufio.Scanner.Scan`): a state, what `Next(&f)` answers — whether there is a field,
+the field variable afterwards, the new state — and what `Err()` answers. `φ` is the field type. -/
+structure ParserI (φ π : Type) where
+  st : π
+  next : π → φ → Bool × φ × π
+  err : π → Option String
 
 /-- `*p` / `p.f` of a pointer that may be nil -/
 def derefPtr {α} (p : Option α) : GoM α :=
